@@ -57,6 +57,22 @@ PROBES = [
                                                  "ExtUnit": ["A", {"B": None}, {"C": None}]}},
     {"name": "p_one_tuple", "types": [_e("OneTuple", "external", [_v("A"), _v("B", "newtype", ty=["tuple", [U8]])]), _s("HasOne", [_f("t", ["tuple", [STR]]), _f("e", ["ref", "OneTuple"])])],
      "roots": ["HasOne"], "values": {"HasOne": [{"t": ["x"], "e": "A"}, {"t": [""], "e": {"B": [7]}}]}},
+    # field-less structs and struct variants `V {}` (an empty map on the wire, not a unit) under every tagging, with and without
+    # deny_unknown_fields
+    {"name": "p_empty", "types": [
+        _s("Empty", []), _s("EmptyDeny", [], deny=True),
+        _e("ExtE", "external", [_v("A"), _v("Reset", "struct", fields=[]), _v("Set", "struct", fields=[_f("n", U8)])]),
+        _e("ExtED", "external", [_v("A"), _v("Reset", "struct", fields=[]), _v("Set", "struct", fields=[_f("n", U8)])], deny=True),
+        _e("AdjE", {"adjacent": ["t", "c"]}, [_v("A"), _v("Reset", "struct", fields=[]), _v("Set", "struct", fields=[_f("n", U8)])]),
+        _e("AdjED", {"adjacent": ["t", "c"]}, [_v("A"), _v("Reset", "struct", fields=[]), _v("Set", "struct", fields=[_f("n", U8)])], deny=True),
+        _e("IntE", {"internal": "kind"}, [_v("A"), _v("Reset", "struct", fields=[]), _v("Set", "struct", fields=[_f("n", U8)])]),
+        _s("HoldsEmpty", [_f("e", ["ref", "Empty"]), _f("d", ["ref", "EmptyDeny"]), _f("x", ["ref", "ExtED"])])],
+     "roots": ["ExtE", "ExtED", "AdjE", "AdjED", "IntE", "HoldsEmpty"],
+     "values": {"ExtE": ["A", {"Reset": {}}, {"Set": {"n": 1}}], "ExtED": ["A", {"Reset": {}}, {"Set": {"n": 2}}],
+                "AdjE": [{"t": "A"}, {"t": "Reset", "c": {}}, {"t": "Set", "c": {"n": 1}}],
+                "AdjED": [{"t": "A"}, {"t": "Reset", "c": {}}, {"t": "Set", "c": {"n": 3}}],
+                "IntE": [{"kind": "A"}, {"kind": "Reset"}, {"kind": "Set", "n": 1}],
+                "HoldsEmpty": [{"e": {}, "d": {}, "x": {"Reset": {}}}, {"e": {}, "d": {}, "x": "A"}]}},
     # an internally tagged enum that looks adjacently tagged: every struct variant carries one field of the same name,
     # omitted on the wire when empty / defaulted
     {"name": "p_lookalike", "types": [_e("Msg", {"internal": "kind"}, [_v("Ping"), _v("Text", "struct", fields=[_f("body", STR)]),
